@@ -146,6 +146,9 @@ class DiffusionModel(GenericModel):
         self.x = data['finalX']
         self._recordedX = data.get('recordX', None)
         self._recordedTime = data.get('recordTime', None)
+        #The loaded state takes the place of the initial profile, so the next solve must not build (and record) the initial profile on top of it
+        self.boundaryConditions.setupDefaults(self.elements)
+        self.isSetup = True
     
     def setHashSensitivity(self, s):
         '''
